@@ -283,7 +283,15 @@ func other(a string) string {
 func NewWorld(cfg Config, r *core.Result) *World {
 	fund := core.Coins("foo", "10000000000000000", "bar", "10000000000000000", "baz", "10000000000000000", "uosmo", "200000000000",
 		"qaa", "10000000000", "qbb", "10000000000", "qcc", "10000000000", "qdd", "10000000000")
-	env := core.NewEnv(core.GenesisOpts{Balances: map[string]sdk.Coins{"A": fund, "B": fund}})
+	env := core.NewEnv(core.GenesisOpts{Balances: map[string]sdk.Coins{"A": fund, "B": fund}, Mutate: func(a *app.OsmosisApp, gs app.GenesisState) {
+		// The shared environment bonds "stake" (the SDK default), and the txfees default genesis takes its base denom from
+		// the same constant. On the chain the fee base denom is uosmo - it is what the epoch hook swaps collected taker fees
+		// into, and what protorev keys its routes by - so it is set here as the chain has it.
+		var tg txfeestypes.GenesisState
+		a.AppCodec().MustUnmarshalJSON(gs[txfeestypes.ModuleName], &tg)
+		tg.Basedenom = "uosmo"
+		gs[txfeestypes.ModuleName] = a.AppCodec().MustMarshalJSON(&tg)
+	}})
 	a, ctx := env.App, env.Ctx
 	w := &World{Env: env, App: a, Cfg: cfg, R: r}
 
@@ -652,8 +660,9 @@ func (w *World) Apply(ctx sdk.Context, l *Ledger, op Op, fail func(a, s, d strin
 			fail("c02.failed-message-changes-nothing", "", fmt.Sprintf("%s failed (%v) but: %s", op, last.Err, msg))
 		}
 		vac["failed_message_observed"]++
-		if len(res) > 1 || (op.K == "swapin" && len(op.R) > 1 && op.Y != "1") || op.K == "eshare" {
-			// earlier messages of the transaction / earlier hops / the exit preceding the swaps had already executed
+		if len(res) > 1 || (op.K == "swapin" && len(op.R) > 1 && op.Y != "1") {
+			// an earlier message of the transaction, or the first hop of a route whose last hop misses its minimum, had
+			// already executed when the failure occurred
 			vac["failed_after_partial_execution"]++
 		}
 		if last.Panicked {
